@@ -447,6 +447,8 @@ func numTS(b []byte, resumeOffset int, state ConsumeNumberState) int {
 //@ ensures bad-n: err != nil && !isUnexpectedEOF(err) ==> n == numTP(b, resumeOffset, state) && n < len(b)
 //@ ensures range: 0 <= n && n <= len(b)
 //@ ensures err-type: err == nil || isUnexpectedEOF(err) || isInvalidTextErr(err)
+//@ ensures ok-len: err == nil && (state <= beforeIntegerDigits || resumeOffset >= 1) ==> n >= 1
+//@ ensures resume-pos: (state <= beforeIntegerDigits || resumeOffset >= 1) && (isUnexpectedEOF(err) || (err == nil && n == len(b))) && result1 >= withinIntegerDigits ==> n >= 1
 //@ ensures resume-state: isUnexpectedEOF(err) || (err == nil && n == len(b)) ==> result1 <= withinExponentDigits
 //@ ensures resume-init: (isUnexpectedEOF(err) || (err == nil && n == len(b))) && (result1 == consumeNumberInit || result1 == beforeIntegerDigits) ==> n == 0
 //@ ensures resume-exp: (isUnexpectedEOF(err) || (err == nil && n == len(b))) && result1 == beforeExponentDigits ==> n < len(b)
